@@ -343,6 +343,12 @@ func (s *Server) BuildAnswer(z *Zone, id uint16, qu Question) *Msg {
 			m.Answer = append(m.Answer, z.Poison[i])
 		}
 	}
+	if z.NegSOA && len(ans) == 0 {
+		labels := strings.Split(strings.TrimSuffix(qu.Name, "."), ".")
+		apex := strings.Join(labels[max(0, len(labels)-1):], ".")
+		m.Authority = append(m.Authority, RR{Name: apex, Type: TypeSOA, TTL: z.NegSOATTL,
+			SOA: &SOA{MName: "ns1." + apex, RName: "hostmaster." + apex, Serial: 2024010101, Refresh: 7200, Retry: 900, Expire: 86400, Minimum: z.NegSOAMin}})
+	}
 	m.Authority = append(m.Authority, s.ExtraAuthority...)
 	m.Additional = append(m.Additional, s.ExtraAdditional...)
 	return m
